@@ -52,6 +52,9 @@ def _bindings(fi: FuncInfo, name: str) -> List[Optional[ast.AST]]:
                         out.append(v.elts[idx[0]])
                     elif isinstance(v, ast.Call) and isinstance(v.func, ast.Attribute) and v.func.attr == "group" and len(v.args) == len(t.elts) and len(v.args) > 1:
                         out.append(ast.Call(func=v.func, args=[v.args[idx[0]]], keywords=[]))
+                    elif isinstance(v, ast.Call) and isinstance(v.func, ast.Attribute) and v.func.attr == "groups" and not v.args and not v.keywords:
+                        # m.groups() unpacked into n names: element i is m.group(i + 1) (arity is the caller's obligation)
+                        out.append(ast.Call(func=ast.Attribute(value=v.func.value, attr="group", ctx=ast.Load()), args=[ast.Constant(value=idx[0] + 1)], keywords=[]))
                     else:
                         out.append(None)
                 elif name in q.names_in(t) and not isinstance(t, (ast.Attribute, ast.Subscript)):
@@ -317,4 +320,37 @@ def named_bool_facts(fi: FuncInfo, facts) -> List[Tuple[str, bool]]:
             if d is not None and isinstance(d, (ast.BoolOp, ast.Compare, ast.UnaryOp, ast.Call)):
                 for atom, p in _atoms(d, pol):
                     out.append(canon_fact(atom, p))
+    return out
+
+
+def widen_facts(fi: FuncInfo, facts, max_variants: int = 24) -> Set[Tuple[str, bool]]:
+    """``facts`` plus (a) the atoms of named booleans that are known true/false and (b) every fact rewritten with
+    single-definition locals replaced by their definition, one name at a time (``limit = config.max_parts; if n > limit``
+    also yields the fact ``n > config.max_parts``).  Sound as long as the operands are not re-assigned between the
+    definition and the test (single-definition locals)."""
+    out: Set[Tuple[str, bool]] = set(facts)
+    out |= set(named_bool_facts(fi, out))
+    work = [f for f in out if not f[0].startswith("@")]
+    seen = set(work)
+    produced = 0
+    while work and produced < max_variants * max(1, len(facts)):
+        t, pol = work.pop()
+        try:
+            e = ast.parse(t, mode="eval").body
+        except SyntaxError:
+            continue
+        names = sorted({n.id for n in ast.walk(e) if isinstance(n, ast.Name) and isinstance(n.ctx, ast.Load)})
+        for nm in names:
+            d = unique_def(fi, nm)
+            if d is None or isinstance(d, (ast.Lambda, ast.Await)):
+                continue
+            e2 = _SubstNames({nm: d}).visit(copy.deepcopy(e))
+            f2 = canon_fact(e2, pol)
+            cands = [f2] + [canon_fact(a, p) for a, p in _atoms(e2, pol)]
+            for c in cands:
+                if c not in seen:
+                    seen.add(c)
+                    out.add(c)
+                    work.append(c)
+                    produced += 1
     return out
